@@ -255,6 +255,16 @@ func (h *NFSProcedureHandler) handleRename(body io.Reader, reply *RPCReply, auth
 	}
 
 	// R23: Return NFS error instead of nil,err
+	// Both parents must be directories (a handle of a symbolic link to a directory is not one)
+	for _, dir := range []*NFSNode{srcDir, dstDir} {
+		dir.mu.RLock()
+		isDir := dir.attrs != nil && dir.attrs.Mode&os.ModeDir != 0
+		dir.mu.RUnlock()
+		if !isDir {
+			return nfsErrorWithDoubleWcc(reply, NFSERR_NOTDIR), nil
+		}
+	}
+
 	srcDirPreAttrs, err := h.server.handler.GetAttr(srcDir)
 	if err != nil {
 		return nfsErrorWithDoubleWcc(reply, mapError(err)), nil
